@@ -821,11 +821,11 @@ func (u *Unit) execLoop(st *State, init ast.Stmt, cond ast.Expr, post ast.Stmt, 
 		for name, t := range o.mem {
 			if h, ok := headMem[name]; ok && h != t {
 				if !headHavoc[name] {
-					u.oblige(o, "modifies", fmt.Sprintf("loop%d:frame:%s:path%d", ord, compClass(name), k+1), u.fnProps(), Eq(t, h))
+					u.oblige(o, "modifies", fmt.Sprintf("loop%d:frame:%s:path%d", ord, compClass(name), k+1), u.framePropsFor(name), Eq(t, h))
 				}
 			} else if !ok {
 				if init0, ok := u.initMem[name]; ok && init0 != t {
-					u.oblige(o, "modifies", fmt.Sprintf("loop%d:frame:%s:path%d", ord, compClass(name), k+1), u.fnProps(), Eq(t, init0))
+					u.oblige(o, "modifies", fmt.Sprintf("loop%d:frame:%s:path%d", ord, compClass(name), k+1), u.framePropsFor(name), Eq(t, init0))
 				}
 			}
 		}
@@ -1033,4 +1033,21 @@ func (u *Unit) inlineCall(st *State, fi *FuncInfo, targs []types.Type, args []Va
 	// continue in the helper's exit state
 	*st = *normal[0].st
 	return normal[0].rets
+}
+
+// framePropsFor: a frame obligation on the allocation counter also belongs to
+// C18, one on sample storage or headers also to C19.
+func (u *Unit) framePropsFor(comp string) []string {
+	props := append([]string{}, u.fnProps()...)
+	switch compClass(comp) {
+	case "allocs", "brk":
+		if !hasProp(props, "C18") {
+			props = append(props, "C18")
+		}
+	case "H", "ch", "dptr", "dlen", "dcap", "bd":
+		if !hasProp(props, "C19") {
+			props = append(props, "C19")
+		}
+	}
+	return props
 }
